@@ -18,7 +18,7 @@ from pathlib import Path
 
 from mc import fastamodel as fm
 from mc.engine import Check, h64
-from mc.vfs import ROOT, VFS, Killed
+from mc.vfs import ROOT, VFS, Killed, reset_library_caches
 from tola.fasta.index import FastaIndex
 
 FA = ROOT + "/g.fa"
@@ -77,12 +77,14 @@ class SeqRunner:
         self.index_buffer = index_buffer
         self.pid = 1000
 
-    def load(self, snap, now, crash_at=None):
+    def load(self, snap, now, crash_at=None, fresh_process=True):
         """
         fresh VFS from (snap, now); one auto_load by a fresh virtual pid, killed
         before its crash_at-th file operation if given.  Returns
         (result, points, new snapshot, log, foreign_touch)
         """
+        if fresh_process:
+            reset_library_caches()  # every load of a history is a new process unless the in-process exploration says otherwise
         v = VFS(bufsize=self.bufsize, coarse=True)
         v.restore(snap, now)
         self.pid += 1
@@ -141,7 +143,7 @@ class C15(Check):
         "pruning, unbounded preemptions)"
     )
     rule = (
-        "E2: states = (FASTA content in {A,B,C}, .fai/.agp bytes or absent, order relation of the three mtimes and the clock); transitions = tick, "
+        "E2p: every history of <= 5 (7) operations replayed inside one process, in-memory state of the library kept between its loads (each load of E2 and each run of E3 starts from a fresh library state). E2: states = (FASTA content in {A,B,C}, .fai/.agp bytes or absent, order relation of the three mtimes and the clock); transitions = tick, "
         "rewrite(X != current, mtime = now), rm .fai, rm .agp, load, load crashed before its k-th file operation for every k; BFS to fixpoint, for stream "
         "buffer sizes {16, 1} and one 8192-buffer run on a cache > 8 KiB. Invariant after every load: raised, or index and assembly == reference of the "
         "current content; if the cache was missing or not strictly newer, both cache files were (re)written by this load. E3: 2 and 3 virtual processes (in further runs one of them crashes at any of its file operations) "
@@ -175,6 +177,8 @@ class C15(Check):
         for b in self.bounds(tier)["e2_buffers"]:
             out.append(("e2", b))
         out.append(("e2big", 8192))
+        for first in range(5):
+            out.append(("e2p", 5 if tier == "quick" else 7, first))
         pres = ("none", "stale", "valid", "fai-only")
         for pre in pres:
             out.append(("e3", 2, pre, 16))
@@ -309,6 +313,53 @@ class C15(Check):
             return snap2, now, True
         raise ValueError(op)
 
+    # ------------------------------------------------------------------ E2p
+    def e2p(self, depth, first, ctx, replay_hist=None):
+        """
+        histories inside ONE process: every sequence of <= depth operations, replayed from the start with the
+        library's in-memory state (memo caches, module globals) kept between the loads of that history
+        """
+        import itertools
+
+        # the clock advances after every operation here (equal-mtime coincidences are the business of E2)
+        alphabet = [("load",), ("rewrite", "B"), ("rewrite", "A"), ("rm", "fai"), ("rm", "agp")]
+        runner = SeqRunner(16)
+        hists = [tuple(tuple(o) for o in replay_hist)] if replay_hist is not None else (
+            (alphabet[first], *rest) for k in range(0, depth) for rest in itertools.product(alphabet, repeat=k)
+        )
+        n = 0
+        for hist in hists:
+            if sum(1 for o in hist if o[0] == "load") < 2 and replay_hist is None:
+                continue  # in-process state can only matter from the second load on
+            n += 1
+            reset_library_caches()
+            v0 = VFS()
+            v0.put(FA, reference("A")[0], mtime=1)
+            snap, now = v0.snapshot(), 2
+            cid = "A"
+            case = ["e2p", [list(o) for o in hist]]
+            ctx.cur = case
+            ctx.evaluations += 1
+            ctx.states += 1
+            for k, op in enumerate(hist):
+                ctx.transitions += 1
+                now += 1
+                if op[0] == "rewrite":
+                    cid = op[1]
+                    snap = tuple(sorted([(p, d, m) for p, d, m in snap if p != FA] + [(FA, reference(cid)[0], now)]))
+                elif op[0] == "rm":
+                    tgt = FAI if op[1] == "fai" else AGP
+                    snap = tuple(x for x in snap if x[0] != tgt)
+                else:
+                    res, _pts, snap, _log, _f = runner.load(snap, now, None, fresh_process=False)
+                    kk = judge(cid, res)
+                    if kk:
+                        ctx.violation(kk + "/same-process", ["e2p", [list(o) for o in hist[: k + 1]]], f"content {cid}: got {res!r}")
+                        break
+            else:
+                ctx.nontrivial += 1
+        ctx.sample({"e2p": "every history of <= %d operations in one process" % depth, "first": list(alphabet[first]), "histories": n})
+
     # ------------------------------------------------------------------ E3
     def prestate(self, pre):
         v = VFS()
@@ -414,6 +465,8 @@ class C15(Check):
         kind = shard[0]
         if kind == "e2":
             self.e2(shard[1], ctx)
+        elif kind == "e2p":
+            self.e2p(shard[1], shard[2], ctx)
         elif kind == "e2big":
             # production buffer on a cache larger than 8 KiB: two contents, bounded number of states
             self.e2(8192, ctx, contents=("BIG", "A"))
@@ -423,7 +476,9 @@ class C15(Check):
             self.e3(shard[1], shard[2], shard[3], ctx, first=0, max_kills=1)
 
     def replay(self, case, ctx):
-        if case[0] == "e2":
+        if case[0] == "e2p":
+            self.e2p(len(case[1]), 0, ctx, replay_hist=case[1])
+        elif case[0] == "e2":
             _, bufsize, contents, hist = case
             self.e2(bufsize, ctx, contents=tuple(contents), replay_hist=[tuple(h) for h in hist])
         else:
@@ -470,6 +525,7 @@ class _Exec:
         self.shared = shared
 
     def run(self, sched, to_completion=False, visit=None):
+        reset_library_caches()
         v = VFS(bufsize=self.bufsize, coarse=True)
         v.restore(self.snap0, self.now0)
         procs = [_Proc(2000 + i) for i in range(self.nproc)]
